@@ -382,6 +382,9 @@ func (sn *Node) UpdateForeignAllocation(alloc *Allocation) *Allocation {
 	if existing == nil {
 		log.Log(log.SchedNode).Debug("unknown allocation to update",
 			zap.String("allocationKey", key))
+		// not tracked on this node yet: account for it as a new foreign allocation
+		sn.occupiedResource = resources.Add(sn.occupiedResource, alloc.GetAllocatedResource())
+		sn.refreshAvailableResource()
 		return nil
 	}
 
